@@ -56,3 +56,68 @@ def values_of(*vals):
         elif isinstance(v, SymList):
             out.append(v.seq)
     return out
+
+
+# ---------------------------------------------------------------------------
+# ghost folds: F(0) = init, F(j+1) = step(j, F(j)) for 0 <= j < n  (assumed as
+# the *definition* of the spec function F; loop invariants then read  x == F(_i))
+# ---------------------------------------------------------------------------
+
+def fold_fn(it, name, ressort, n, init, step):
+    it.ctx.uf(name, ["Int"], ressort)
+
+    def F(j):
+        return smt.app(name, ressort, j if is_t(j) else I(j))
+
+    it.ctx.assume(Eq(F(I(0)), init))
+    it.forall_int(lambda j: Implies(And(smt.Cmp("<=", I(0), j), smt.Cmp("<", j, n)),
+                                    Eq(F(smt.Add(j, I(1))), step(j, F(j)))))
+    return F
+
+
+def as_symmap(it, m, ksort, vsort):
+    """view a python dict / SymMap as (pres, vals) arrays"""
+    from vc import lib
+    if isinstance(m, SymMap):
+        return m.pres, m.vals
+    if isinstance(m, dict):
+        sm = lib.empty_symmap(it, ksort, vsort)
+        for k, v in m.items():
+            lib.setitem(it, sm, k, v)
+        return sm.pres, sm.vals
+    raise Unsupported("as_symmap")
+
+
+def h_map_is(it, m, pres, vals):
+    """the dict m is exactly the map (pres, vals)"""
+    p, v = as_symmap(it, m, pres.sort[1], vals.sort[2])
+    return And(Eq(p, pres), Eq(v, vals))
+
+
+def proc_file_env(files, modname="_pslinux", procfs="/proc"):
+    """environment for functions that read procfs files: files maps a path
+    tail (e.g. '/meminfo') to provider(it, path) -> SymFile / raises PyRaise"""
+    def open_any(it, path, *a, **k):
+        p = path if isinstance(path, str) else (path.tail() if isinstance(path, FStr) else None)
+        if p is None:
+            raise Unsupported("open of a symbolic path")
+        for tail, prov in files.items():
+            if p.endswith(tail):
+                return prov(it, path)
+        raise Unsupported(f"no environment model for file {p}")
+
+    def get_procfs_path(it):
+        return procfs
+
+    env = {}
+    for m in (modname, "_common"):
+        env[f"{m}.open_binary"] = EnvFunc("open_binary", open_any)
+        env[f"{m}.open_text"] = EnvFunc("open_text", open_any)
+        env[f"{m}.get_procfs_path"] = EnvFunc("get_procfs_path", get_procfs_path)
+    return env
+
+
+def warn_env(modname="_pslinux"):
+    def warn(it, msg, *a, **k):
+        it.ctx.log.append(("warn", msg))
+    return {"warnings.warn": EnvFunc("warnings.warn", warn)}
